@@ -396,8 +396,8 @@ def _g2(ctx: Context) -> None:
         for n in cfg.nodes:
             if n.kind == "test":
                 cp = compare_parts(n.exprs[0])
-                if cp and cp[1] == "Eq" and ctx.const(f, cp[2], None) == 0 and isinstance(cp[0], ast.Subscript) and ctx.const(f, cp[0].slice, None) == "status":
-                    gate += cfg.out_edges(n, ("T",))
+                if cp and cp[1] in ("Eq", "NotEq") and ctx.const(f, cp[2], None) == 0 and isinstance(cp[0], ast.Subscript) and ctx.const(f, cp[0].slice, None) == "status":
+                    gate += cfg.out_edges(n, ("T",) if cp[1] == "Eq" else ("F",))
         head = [x for x in cfg.nodes if x.kind == "for" and x.ast is entry_loop.ast][0]
         okd = bool(gate) and cfg.find_path(head.id, dn.id, avoid_edges=gate) is None
     ck.check("C13.G2", okd, "a per-entry status 0 is removed (success entries carry no status)", f"{ctx.fkey(f)}:zero-status",
@@ -410,8 +410,8 @@ def _g2(ctx: Context) -> None:
         for n in cfg.nodes:
             if n.kind == "test":
                 cp = compare_parts(n.exprs[0])
-                if cp and cp[1] == "NotEq" and ctx.const(f, cp[2], None) == 0 and isinstance(cp[0], ast.Subscript) and ctx.const(f, cp[0].slice, None) == "status":
-                    gate += cfg.out_edges(n, ("T",))
+                if cp and cp[1] in ("NotEq", "Eq") and ctx.const(f, cp[2], None) == 0 and isinstance(cp[0], ast.Subscript) and ctx.const(f, cp[0].slice, None) == "status":
+                    gate += cfg.out_edges(n, ("T",) if cp[1] == "NotEq" else ("F",))  # `!= 0` true, or `== 0` false (if/else form)
         head = [x for x in cfg.nodes if x.kind == "for" and x.ast is entry_loop.ast][0]
         okn &= bool(gate) and cfg.find_path(head.id, dn.id, avoid_edges=gate) is None
     ck.check("C13.G2", okn, "a non-zero per-entry status gets a description", f"{ctx.fkey(f)}:nonzero-description",
@@ -419,7 +419,11 @@ def _g2(ctx: Context) -> None:
     # key = (c['aid'], c['iid'])
     for e in est:
         key = strip_sites(T.of(cfg, e, e.ast.targets[0].slice))
-        ok = key[0] == "tuple" and len(key[1]) == 2 and all(k[0] == "sub" and k[2] == ("const", nm) and k[1][0] == "iter" for k, nm in zip(key[1], ("aid", "iid")))
+        def _field(k, nm):  # c[nm], or c.pop(nm) (look-up and removal in one step)
+            return (k[0] == "sub" and k[2] == ("const", nm) and k[1][0] == "iter") or \
+                   (k[0] == "call" and k[1][0] == "attr" and k[1][2] == "pop" and k[1][1][0] == "iter" and k[2] == (("const", nm),) and not k[3])
+
+        ok = key[0] == "tuple" and len(key[1]) == 2 and all(_field(k, nm) for k, nm in zip(key[1], ("aid", "iid")))
         ck.check("C13.G2", ok, "entries are keyed by (aid, iid) of the entry", f"{ctx.fkey(f)}:entry-key", f"format_characteristic_list keys entries by {show(key, 80)}", ctx.loc(f, e))
 
 
